@@ -119,7 +119,7 @@ func enumPaths(t reflect.Type, source bool, maxDepth int) []pathCand {
 					a, b string
 					t    reflect.Type
 					k    string
-				}{{"L", "S", tString, "IS"}, {"PL", "N", tInt, "IPS"}, {"MS", "k1", tString, "IM"}} {
+				}{{"L", "S", tString, "IS"}, {"PL", "N", tInt, "IPS"}, {"MS", "k1", tString, "IM"}, {"MA", "k1", tAny, "IM"}} {
 					cc := c
 					cc.Path = clonePath(cur.Path, f.a, f.b)
 					cc.Leaf = f.t
@@ -187,7 +187,7 @@ type Case struct {
 	Hazard   string // the single hostile element put on a used path ("" none)
 	Struct   string // structural feature of the mapping set that is known to be delicate ("" none)
 	Seed     string // input of START when START is not a typed predecessor
-	invokeOK bool // the Invoke runs of the workflow under test conformed (set while running)
+	invokeOK bool // the Invoke runs of the workflow under test did not fail (set while running)
 }
 
 func (c *Case) startPred() *pred {
@@ -571,7 +571,7 @@ func tryGenCase(r *mon.Rand) *Case {
 			for i := 0; i < ns; i++ {
 				for try := 0; try < 20; try++ {
 					tc := tcs[r.Intn(len(tcs))]
-					if conflictsWithChosen(tc.Path) {
+					if conflictsWithChosen(tc.Path) || tc.Nested {
 						continue
 					}
 					c.Statics = append(c.Statics, staticVal{To: tc.Path, Val: genTyped(r, tc.Leaf), tgt: tc})
@@ -664,7 +664,7 @@ func injectOverlap(r *mon.Rand, c *Case, tcs []pathCand, addMapping func(tc path
 		base := c.Maps[r.Intn(len(c.Maps))].To
 		var cands []pathCand
 		for _, tc := range tcs {
-			if overlaps(tc.Path, base) {
+			if overlaps(tc.Path, base) && !tc.Nested {
 				cands = append(cands, tc)
 			}
 		}
@@ -701,6 +701,11 @@ func injectOverlap(r *mon.Rand, c *Case, tcs []pathCand, addMapping func(tc path
 // passes through, or ends at, an interface-typed field while the target position has
 // another declared type).
 func (m mapping) rtChecked(c *Case) bool {
+	if strings.Contains(m.tgt.Shape, "AA") {
+		// the target lies two or more levels below an `any` hole: the levels are created at request time
+		// and anything can be stored there
+		return false
+	}
 	st := m.src.Leaf
 	if m.src.Dyn {
 		if len(m.From)-m.src.IfaceAt >= 2 {
@@ -734,6 +739,7 @@ const (
 	fSrcNestedPtr   = "source-path-through-pointer-to-pointer"
 	fRtWithOthers   = "runtime-checked-mapping-with-other-target-types-on-the-edge"
 	fRtInStreamMode = "runtime-checked-mapping-in-stream-mode"
+	fStaticNested   = "static-value-path-through-pointer-to-pointer"
 )
 
 // features: delicate structural properties of a mapping set (independent of values).
@@ -762,7 +768,15 @@ func (c *Case) features() []string {
 		}
 	}
 	for _, s := range c.Statics {
+		nested := set[fTgtNestedPtr]
 		look(s.tgt, s.To)
+		if s.tgt.Nested {
+			// static value paths are not looked at when compiling: a class of its own
+			set[fStaticNested] = true
+			if !nested {
+				delete(set, fTgtNestedPtr)
+			}
+		}
 	}
 	for _, n := range entries {
 		if n >= 2 {
@@ -884,6 +898,17 @@ func injectHazard(r *mon.Rand, c *Case, roots []reflect.Value) {
 					}
 					return name
 				}
+			}
+			if sc.Need == tPMid && sc.Leaf == tAny {
+				// the *Mid held by the interface has a nil value at the end of the path
+				opts = append(opts, func() string {
+					mid := genValue(r, tMid, 3)
+					mid.FieldByName(sc.Path[sc.IfaceAt]).SetMapIndex(reflect.ValueOf(sc.Path[sc.IfaceAt+1]), reflect.Zero(tAny))
+					if err := refSet(root, at, mid.Addr().Interface()); err != nil {
+						return ""
+					}
+					return "interface-source-path-yields-nil"
+				})
 			}
 			opts = append(opts,
 				set(NoS{X: 1}, "interface-source-holds-struct-without-the-field"),
